@@ -214,12 +214,19 @@ func (fsys *BackupFS) ForceBackup(name string) (err error) {
 		return err
 	}
 
+	prevInfo, wasSeen := fsys.alreadySeenWithInfo(resolvedName)
+
 	err = fsys.tryRemoveBackup(resolvedName)
 	if err != nil {
 		return err
 	}
 	err = fsys.tryBackup(resolvedName)
 	if err != nil {
+		if wasSeen && prevInfo == nil {
+			// the path did not exist when it was first seen and its new backup
+			// could not be taken: keep that record, Rollback has to remove the path
+			fsys.setInfoIfNotAlreadySeen(resolvedName, nil)
+		}
 		return err
 	}
 
